@@ -15,7 +15,10 @@ class verif_span { public: const unsigned char* p; size_t n;
     const unsigned char& operator[](size_t i) const { __CPROVER_assert(i < n, "Span precondition: index in range"); return p[i]; } };
 inline std::string HexStr(const verif_bytes& v) { return std::string(); }
 inline std::string HexStr(const verif_scriptbytes& v) { return std::string(); }
-inline std::string HexStr(const verif_span& v) { return std::string(); }
+// hex listing of a span: the text is not modelled, WHICH bytes are listed is (ghost log of pointer and length per call)
+#define VERIF_HEXLOG_CAP 20
+extern int g_hex_calls; extern const unsigned char* g_hex_ptr[VERIF_HEXLOG_CAP]; extern size_t g_hex_len[VERIF_HEXLOG_CAP];
+inline std::string HexStr(const verif_span& v) { int k = g_hex_calls; if (k < VERIF_HEXLOG_CAP) { g_hex_ptr[k] = v.p; g_hex_len[k] = v.n; } g_hex_calls = k + 1; return std::string(); }
 inline std::string strprintf(const char* fmt...) { return std::string(); }
 class uint256 { public: unsigned char m_data[32];
     uint256() { for (int i = 0; i < 32; ++i) m_data[i] = 0; }
@@ -53,6 +56,7 @@ class HashWriter { public: int tag; unsigned char b[VERIF_HASHLOG_CAP]; size_t n
     uint256 GetSHA256() { int k = g_hcalls; VERIF_LIMIT(k < 2, "hash oracle call log capacity"); g_hlog[k].tag = tag; g_hlog[k].n = n; for (size_t i = 0; i < VERIF_HASHLOG_CAP; ++i) g_hlog[k].b[i] = b[i];
         g_hcalls = k + 1; uint256 r; for (int i = 0; i < 32; ++i) r.m_data[i] = g_hout[k][i]; return r; } };
 const HashWriter HASHER_TAPLEAF = HashWriter((int)VTAG_TAPLEAF); const HashWriter HASHER_TAPBRANCH = HashWriter((int)VTAG_TAPBRANCH); const HashWriter HASHER_TAPSIGHASH = HashWriter((int)VTAG_TAPSIGHASH);
+int g_hex_calls; const unsigned char* g_hex_ptr[VERIF_HEXLOG_CAP]; size_t g_hex_len[VERIF_HEXLOG_CAP];
 bool g_tweak_ok; int g_tweak_calls; uint256 g_tweak_q, g_tweak_p, g_tweak_root; bool g_tweak_parity;
 verif_hashlog g_hlog[2]; int g_hcalls; unsigned char g_hout[2][32];
 int verif_expect_throw; int verif_thrown;
